@@ -19,6 +19,7 @@ def tyOf : String → Option AcctType
   | "zc16" => some { disc := [0xA1, 1, 2, 3, 4, 5, 6, 0x1A], kind := .zc, valid := fun _ => true }
   | "zclist" => some { disc := [0xB2, 0, 0, 0, 0, 0, 0, 0x2B], kind := .zc, valid := fun _ => true }
   | "borsh" => some { disc := [0, 0, 0, 0xC3, 0, 0, 0, 0x3C], kind := .borsh, valid := borshValid }
+  | "bunit" => some { disc := [0xD4, 0, 0, 0, 0, 0, 0, 0x4D], kind := .borsh, valid := fun b => b.isEmpty }
   | _ => none
 
 /-- Is `enc` the encoding of a value of the named harness type? (`ops.rs` `valid_value`) -/
@@ -28,12 +29,14 @@ def validValue (ty : String) (enc : List Nat) : Bool :=
   | "zclist" => decide (enc.length ≥ 4) && (enc.length - 4 == 3 || enc.length - 4 == 17) &&
       decide (rdLE (enc.take 4) = enc.length - 4)
   | "borsh" => borshValid enc && decide (enc.length ≤ 1000)
+  | "bunit" => enc.isEmpty
   | _ => false
 
 def defaultValue (ty : String) : List Nat :=
   match ty with
   | "zc16" => List.replicate 16 0
   | "zclist" => List.replicate 4 0
+  | "bunit" => []
   | _ => List.replicate 12 0
 
 structure Decl where
@@ -136,7 +139,16 @@ def showWorld (s : DS) : String :=
 
 def freeze (s : DS) : DS := { s with frozen := true }
 
-def step (s : DS) (toks : List String) : DS × String :=
+/-- `Box<T>` (impls/boxed.rs) forwards every account-set trait to `T`, so the carrier tokens
+(`funder … box`, `init … box|ibox`) do not change the model's answer. -/
+def stripCarrier (toks : List String) : List String :=
+  match toks with
+  | ["funder", k, sd, "box"] => ["funder", k, sd]
+  | ["init", a, b, c, d, e, f, "box"] => ["init", a, b, c, d, e, f]
+  | ["init", a, b, c, d, e, f, "ibox"] => ["init", a, b, c, d, e, f]
+  | t => t
+
+def stepCore (s : DS) (toks : List String) : DS × String :=
   match toks with
   | ["rent", a, b] =>
     match parseNat a, parseNat b with
@@ -247,7 +259,7 @@ def step (s : DS) (toks : List String) : DS × String :=
         else match parseHex newval with
           | some v => if tyName = "borsh" ∧ validValue "borsh" v then some (some v) else none
           | none => none
-      if tyName = "zclist" ∨ !s.declared tkey ∨ ¬ (how = "arg" ∨ how = "cached")
+      if ¬ (tyName = "zc16" ∨ tyName = "borsh") ∨ !s.declared tkey ∨ ¬ (how = "arg" ∨ how = "cached")
         ∨ (how = "arg" ∧ s.funder.isNone) then (s, "bad-op")
       else match nv? with
       | none => (s, "bad-op")
@@ -302,5 +314,7 @@ def step (s : DS) (toks : List String) : DS × String :=
     | _, _, _, _, _, _ => (s, "bad-op")
   | ["world"] => (freeze s, showWorld s)
   | _ => (s, "bad-op")
+
+def step (s : DS) (toks : List String) : DS × String := stepCore s (stripCarrier toks)
 
 end Account.Driver.SysAcct
